@@ -1,5 +1,5 @@
 /- Tie T, one fact per module so that a change of one textual fact breaks only the properties that rest on it (see CosetProofs/Ties.lean). -/
-import CosetProofs.Ties.PanicSites
+import CosetProofs.Ties.SitesDef
 namespace Coset.Ties
 
 /-- the conversions that can lose or refuse a value: `as <int/float type>`, `try_into`, `try_from` (the lossless `From` / `.into()`
